@@ -2556,6 +2556,7 @@ def run_inplace_case(ctx, ispec, first, ops, bspec, want_model=True, opname=None
     D = size if bspec[0] == 'pupil' else 1.0
     g = build_igrid(ispec)
     other = 'polar' if rep.startswith('cart') else 'cartesian'
+    init = (np.array(g.coords[0], float).ravel().copy(), np.array(g.coords[1], float).ravel().copy())
     nothing = (None, lambda resp: None)
     # --- the first use of the object
     conv = ['ellipse', [2.0 * D, 1.0 * D], [0.5 * D, 0.25 * D], 0.5]
@@ -2663,7 +2664,34 @@ def run_inplace_case(ctx, ispec, first, ops, bspec, want_model=True, opname=None
     ctx.case({'grid': ispec, 'ops': ops, 'shape': bspec} if mixed else None, ('inplace', label, rep, opname, first, len(vals), int(np.count_nonzero(vals))) if mixed else None)
     if not want_model or toks is None:
         return nothing
-    req = 'C12 eval pts %s %s %s %s' % (rat(tol), rat_list(cx), rat_list(cy), ' '.join(toks))
+    # the model: the history itself (`evalAfter`, Model/ApertureHistory.lean) where it is rational, else the point
+    # predicate at the current points
+    polar = rep.startswith('polar')
+    expressible = not (polar and any(o[0] == 'shift' or (o[0] == 'scale' and isinstance(o[1], list)) for o in ops))
+    if expressible:
+        mops = []
+        for o in ops:
+            if o[0] == 'scale':
+                sx, sy = o[1] if isinstance(o[1], list) else (o[1], o[1])
+                mops.append('scale:%s:%s' % (rat(sx), rat(sy)))
+            elif o[0] == 'shift':
+                mops.append('shift:%s:%s' % (rat(o[1][0]), rat(o[1][1])))
+            elif o[0] == 'rotate':
+                mops.append('rot:%s:%s' % (rat(float(np.cos(o[1]))), rat(float(np.sin(o[1])))))
+            else:
+                mops.append(o[0])
+        if polar:
+            cs = np.empty(2 * len(init[0]))
+            cs[0::2] = np.cos(init[1])
+            cs[1::2] = np.sin(init[1])
+            coords = '%s %s' % (rat_list(init[0]), rat_list(cs))
+        else:
+            coords = '%s %s' % (rat_list(init[0]), rat_list(init[1]))
+        req = 'C12 hist %s %s %s %s %s' % ('polar' if polar else 'cart', rat(tol), coords, ';'.join(mops) or '-', ' '.join(toks))
+        ctx.count('inplace-model:history')
+    else:
+        req = 'C12 eval pts %s %s %s %s' % (rat(tol), rat_list(cx), rat_list(cy), ' '.join(toks))
+        ctx.count('inplace-model:current-points-only')
 
     def check(resp):
         parts = resp.split(' ')
@@ -2672,9 +2700,17 @@ def run_inplace_case(ctx, ispec, first, ops, bspec, want_model=True, opname=None
             return
         mv, near = _rats(parts[1]), _bits(parts[2])
         ctx.traces_validated += 1
+        if parts[3] != '1':
+            ctx.disagree('C12 model-self', {'case': case, 'detail': 'code-path model on the object differs from point semantics'})
         if len(mv) != len(vals):
             ctx.disagree('C12 inplace', {'case': case, 'detail': 'length', 'model': len(mv), 'impl': len(vals)})
             return
+        if expressible:
+            mp = np.array([float(t) for t in _rats(parts[4])])
+            if len(mp) != 2 * len(cx) or max(np.abs(mp[0::2] - cx).max(), np.abs(mp[1::2] - cy).max()) > 1e-9 * scale:
+                ctx.disagree('C12 inplace', {'case': case, 'detail': 'the points of the object after the history differ from the model'},
+                             key='grid:inplace-model-points:%s:%s' % (opname, rep))
+                return
         for i in range(len(vals)):
             if near[i]:
                 ctx.boundary_skipped += 1
@@ -2770,6 +2806,35 @@ def check_hexqr(ctx):
         ctx.traces_validated += 1
         if out != 'ok ' + ';'.join(qr):
             ctx.disagree('C12 hexqr', {'rings': rings, 'model': out[:200], 'impl': ';'.join(qr)[:200]})
+
+
+def check_hexcount(ctx):
+    """the concrete constants of Model/ApertureTelescopes.lean (theorems luvoir_a_keeps_120_segments, luvoir_b_keeps_55_segments)
+    against the NumPy expressions of the makers, and the proved counts against the segments the real makers return"""
+    import hcipy.aperture.realistic as rl
+    from fractions import Fraction
+    for short, name, proved in (('luvoir_a', 'make_luvoir_a_aperture', 120), ('luvoir_b', 'make_luvoir_b_aperture', 55)):
+        cfg = hexpupil_cfg(name, {})
+        out = ctx.model(['C12 hexcount ' + short])[0].split(' ')
+        ctx.traces_validated += 1
+        try:
+            with warnings.catch_warnings():
+                warnings.simplefilter('ignore')
+                nreal = len(getattr(rl, name)(return_segments=True)[1])
+        except Exception as e:                                  # noqa
+            ctx.disagree('C12 hexcount', {'name': name, 'detail': 'the maker raises %s' % type(e).__name__})
+            continue
+        want = [Fraction(float(cfg['pitch'])), Fraction(float(cfg['pitch'] * np.sqrt(3) / 4))] + [_frac(sel[-1]) for sel in cfg['sels']]
+        try:
+            got = [_frac(out[3]), _frac(out[4])] + [_frac(t) for t in out[5][1:-1].split(',')]
+            ok = out[0] == 'ok' and int(out[1]) == proved and int(out[2]) == cfg['rings'] and got == want
+        except Exception:                                       # noqa
+            ok = False
+        if not ok:
+            ctx.disagree('C12 hexcount', {'name': name, 'model': ' '.join(out)[:300], 'detail': 'constants of the model differ from the maker\'s expressions'})
+        if nreal != proved:
+            ctx.disagree('C12 hexcount', {'name': name, 'proved': proved, 'impl': nreal}, key='pupil:%s:segment-count' % name[5:])
+        ctx.count('hexcount-checked')
 
 
 # ---------------------------------------------------------------------------------------------
@@ -2900,6 +2965,7 @@ def run(ctx):
                 checks.append((len(lines), len(l), chk))
                 lines += l
     check_hexqr(ctx)
+    check_hexcount(ctx)
     run_super_errors(ctx)
     run_super_stats(ctx)
     run_super_lists(ctx)
